@@ -20,7 +20,8 @@ def make_case(g, ops, fam, flags=1):
 
     def verdicts():
         sp = A.Spec(g, A.Sim(g, dict(sim.st)))
-        return [(sp.readable(i), sp.writable(i), sp.evaluable(i)) for i in range(n)]
+        return [(sp.readable(i), sp.writable(i), sp.evaluable(i), sp.base_outcome(i, False), sp.base_outcome(i, True))
+                for i in range(n)]
 
     opcodes = []
     try:
@@ -90,6 +91,15 @@ def predicate(c, ver):
                 what = "is_writable" if q else "is_readable"
                 if got == 2:
                     return "%s(N%d) panicked after step %d" % (what, i, si)
+                base = spec[i][3 + q]
+                has_query = g[i]["kind"] not in (("Command", "Register") if q == 0 else
+                                                 ("Register", "IntSwissKnife", "SwissKnife"))
+                if has_query and base is not True:
+                    exp = 0 if base is False else 100 + base[1]
+                    if got != exp:
+                        return ("after step %d: %s(N%d: %s) = %d; its controlling nodes, asked in the order "
+                                "pIsImplemented, pIsAvailable%s, decide %d (first failing control / first 'no')"
+                                % (si, what, i, g[i]["kind"], got, ", pIsLocked" if q else "", exp))
                 if spec[i][2] and got not in (0, 1) and not (q == 0 and g[i]["kind"] == "Command"):
                     return ("after step %d: %s(N%d: %s) fails with code %d although every node it depends on "
                             "evaluates and every reference is well-kinded" % (si, what, i, g[i]["kind"], got))
@@ -190,6 +200,34 @@ def gen_minimal(ck, rng, cases):
                 for vs, accs in (([2], [acc]), ([1, 2], ["", acc]), ([2, 1], [acc, ".Max"])):
                     g.append(A.node(kind, pvalue=1, vars=vs, accs=accs))
                 add(cases, g, [("s", 0, 0), ("s", 0, 1), ("s", 0, 2), ("s", 0, 1)], "minimal graphs")
+    # controlling nodes that fail to evaluate: a reference to a node that does not exist, a register the device
+    # refuses to read, a formula with an integer remainder by zero, a Boolean whose raw value is neither on nor
+    # off, a node of a kind that cannot control; alone, behind a passing / refusing earlier control (flipped), and
+    # two different failures in a row (the first one must be reported)
+    def failing(j):
+        """nodes to append at position 3.. ; the last one is the failing control ([] = the dangling reference N50)"""
+        return [[],
+                [A.node("IntReg", access="RW", mapped=False)],
+                [A.node("IntSwissKnife", vars=[], formula="1 % 0")],
+                [A.node("Boolean", value=("node", 0), on=1, off=0)],       # N0 holds 5: neither on nor off
+                [A.node("Float", value=("slot", 1))],                      # a kind that cannot control
+                [A.node("IntReg", access="RW", mapped=False), A.node("Integer", value=("pvalue", 3, []))]][j]
+    for kind in kinds:
+        for j in range(6):
+            g = [A.node("IntReg", access="RW", init=5), A.node("Integer", value=("slot", 1)),
+                 A.node("Integer", value=("slot", 1))]
+            g += failing(j)
+            bad = len(g) - 1 if failing(j) else 50
+            other = 50
+            if bad != 50:
+                g.append(A.node("IntSwissKnife", vars=[], formula="1 % 0") if j != 2 else
+                         A.node("IntReg", access="RW", mapped=False))
+                other = len(g) - 1
+            for refs in (dict(impl=bad), dict(avail=bad), dict(lock=bad), dict(impl=2, avail=bad), dict(impl=2, lock=bad),
+                         dict(avail=2, lock=bad), dict(impl=bad, avail=other), dict(avail=bad, lock=other),
+                         dict(impl=other, lock=bad), dict(impl=2, avail=2, lock=bad)):
+                g.append(feature(kind, g, tb=0, access="RW", **refs))
+            add(cases, g, [("s", 2, 0), ("s", 2, 1), ("s", 2, 2)], "failing controls")
     # one unreadable / unwritable source under each referrer
     for src in (A.node("IntReg", access="WO"), A.node("IntReg", access="RO"), A.node("Integer", value=("slot", 1), imposed="RO"),
                 A.node("Integer", value=("slot", 1), imposed="WO"), A.node("Enumeration", value=("slot", 0)),
@@ -437,7 +475,10 @@ RULE = ("acyclic node graphs rendered to GenApi XML (real parser + real nodes) a
         "depth 3; random graphs of 3..12 nodes incl. malformed references (wrong kinds, unmapped registers, boolean "
         "raw values that are neither on nor off); histories of set_value on the controlling / index / backing nodes "
         "with is_readable and is_writable of EVERY node queried initially and after every step; real code (no_cache) "
-        "vs model/Access.v by vm_compute; a sample again with the register cache enabled (predicate only); predicate "
+        "vs model/Access.v by vm_compute; failing controlling nodes in every run (dangling reference, register the device "
+        "refuses, integer remainder by zero in a formula, Boolean neither on nor off, wrong kind; alone / behind a flipped "
+        "earlier control / two failures in a row) with the independent rule 'first failing control or first no, in the "
+        "order implemented, available, locked' predicting the exact outcome incl. error class; a sample again with the register cache enabled (predicate only); predicate "
         "= independent three-valued Python evaluation of Readable / Writable from the property text, plus: on a node "
         "that is evaluable (every reachable node well-kinded and evaluating, as in C18_readable_exactly) an error "
         "answer is a failure; non-trivial = "
